@@ -1,4 +1,5 @@
 import BM.Sanitize
+import BM.Entry
 /-
   C16: I/O failures are reported and the output stays a clean prefix.
   The model of the destination is `feed`: the sequence of `WriteString` calls the loop makes
@@ -74,6 +75,40 @@ theorem C16_writer (p : Policy) (input : Bytes) (k : Nat) (perm : Bool) :
   refine ⟨feed_prefix k perm ws 0, ?_, ?_⟩
   · intro hk; exact feed_fail_reported k perm ws 0 (by omega) (by omega)
   · intro hk; rw [feed_fail_unreached k perm ws 0 (by omega)]
+
+/-- **C16 (reader half)** for every policy, every prefix the reader delivered before it failed, and
+    whatever the destination does: `SanitizeReaderToWriter` returns an error and `SanitizeReader`
+    returns an empty buffer -/
+theorem C16_reader (p : Policy) (delivered : Bytes) (failAt : Option Nat) (perm : Bool) :
+    (p.sanitizeRW delivered .failed failAt perm).2 = true ∧ p.sanitizeReaderM delivered .failed = [] := by
+  unfold Policy.sanitizeReaderM Policy.sanitizeRW
+  simp
+
+/-- **C16 (writer half) on the entry point**: with a reader that ends normally, the funnel returns
+    an error exactly when a write call that is reached fails, and what the destination accepted is
+    a prefix of the fault-free result -/
+theorem C16_entry_writer (p : Policy) (input : Bytes) (k : Nat) (perm : Bool) :
+    let ws := (p.ensureInit.run {} (Html.tokenize input)).1
+    ((p.sanitizeRW input .eof (some k) perm).2 = true ↔ k < ws.length) ∧
+    ∃ rest, p.sanitizeCore input = (p.sanitizeRW input .eof (some k) perm).1.flatten ++ rest := by
+  intro ws
+  have hw := C16_writer p.ensureInit input k perm
+  obtain ⟨⟨rest, hpre⟩, hfail, hok⟩ := hw
+  constructor
+  · have hdec : decide (ReadEnd.eof = ReadEnd.failed) = false := by decide
+    unfold Policy.sanitizeRW
+    simp only [hdec, Bool.or_false]
+    constructor
+    · intro h
+      by_cases hk : k < ws.length
+      · exact hk
+      · have := hok (Nat.le_of_not_lt hk)
+        rw [this] at h; cases h
+    · intro hk; exact (hfail hk).1
+  · refine ⟨rest.flatten, ?_⟩
+    unfold Policy.sanitizeCore Policy.sanitizeTokens Policy.sanitizeRW
+    simp only
+    rw [hpre, List.flatten_append]
 
 /-- non-vacuity: a run with several writes, failing at the second -/
 example :
